@@ -460,10 +460,7 @@ def run(cx):
         check_callers(ob, prog, "anemo::network::connection_manager::ConnectionManager::new", ["anemo::network::Builder::start"], exact=1, what="ConnectionManager::new")
         # config getters
         for g, f in (("inbound_request_timeout", "inbound_request_timeout_ms"), ("outbound_request_timeout", "outbound_request_timeout_ms")):
-            gb = cx.body(f"anemo::config::Config::{g}")
-            t = Origins(gb).of_local(0)
-            ok = t[0] == "call" and name_matches(t[1], "Option::map") and mentions_field(t[2][0], f) and t[2][1] == ("fnptr", "core::time::Duration::from_millis")
-            ob.require(ok, f"config/{g}", f"Config::{g} returns {show(t)}", gb.path)
+            check_optional_ms_getter(ob, prog, f"anemo::config::Config::{g}", f, key=f"config/{g}")
 
     with cx.ob("C11.4c", "R-CONST", "configured request timeouts are milliseconds (unit discipline of the Config accessors)") as ob:
         check_ms_getter(ob, prog, "anemo::config::Config::inbound_request_timeout", "inbound_request_timeout_ms")
